@@ -58,6 +58,8 @@ enum Step {
     Enter(usize),  // with_local_recorder(&r, || {
     Exit,          // }) returning normally
     ExitPanic,     // }) by a panic unwinding through it (caught outside)
+    /// (global-install part only) park here until the process-global recorder has been installed by the main thread
+    InstallGlobal,
 }
 
 #[derive(Clone, Debug, PartialEq)]
@@ -126,6 +128,7 @@ impl Model {
                 self.depth += 1;
                 self.scopes.push((None, r));
             }
+            Step::InstallGlobal => {}
             Step::Exit | Step::ExitPanic => {
                 if s == Step::ExitPanic {
                     // unwinding drops the guards created inside this closure (still live), innermost first
@@ -157,6 +160,10 @@ impl Model {
 struct Real {
     recs: Vec<&'static Dbl>,
     guards: Vec<Option<LocalRecorderGuard<'static>>>,
+    /// handshake for `Step::InstallGlobal`: (tell the main thread we are parked, wait for its go, id of the global recorder)
+    sync: Option<(std::sync::mpsc::Sender<()>, std::sync::mpsc::Receiver<()>, usize)>,
+    /// false: no emission is made on this thread before the global recorder is installed
+    probing: bool,
     log: Log,
 }
 
@@ -207,10 +214,18 @@ fn check_probe(m: &Model, got: &[String], global: Option<usize>, step: usize, ou
 }
 
 /// Runs steps[pos..] until the Exit matching the current closure (or the end); returns the position after it.
-fn interp(steps: &[Step], mut pos: usize, real: &mut Real, m: &mut Model, global: Option<usize>, out: &mut Outcome) -> (usize, bool) {
+fn interp(steps: &[Step], mut pos: usize, real: &mut Real, m: &mut Model, global: &std::cell::Cell<Option<usize>>, out: &mut Outcome) -> (usize, bool) {
     while pos < steps.len() {
         let s = steps[pos];
         match s {
+            Step::InstallGlobal => {
+                if let Some((ready, go, gid)) = &real.sync {
+                    let _ = ready.send(());
+                    let _ = go.recv();
+                    global.set(Some(*gid));
+                    real.probing = true;
+                }
+            }
             Step::Set(r) => {
                 let g = metrics::set_default_local_recorder(real.recs[r]);
                 real.guards.push(Some(g));
@@ -224,8 +239,10 @@ fn interp(steps: &[Step], mut pos: usize, real: &mut Real, m: &mut Model, global
                 let mut panicked = false;
                 let res = std::panic::catch_unwind(std::panic::AssertUnwindSafe(|| {
                     metrics::with_local_recorder(rec, || {
-                        let got = probe(&real.log);
-                        check_probe(m, &got, global, pos, out);
+                        if real.probing {
+                            let got = probe(&real.log);
+                            check_probe(m, &got, global.get(), pos, out);
+                        }
                         let (n, p) = interp(steps, pos + 1, real, m, global, out);
                         next = n;
                         if p {
@@ -237,8 +254,10 @@ fn interp(steps: &[Step], mut pos: usize, real: &mut Real, m: &mut Model, global
                 let _ = res;
                 pos = next;
                 // the Exit step itself was applied to the model by the callee; probe after the scope ended
-                let got = probe(&real.log);
-                check_probe(m, &got, global, pos.saturating_sub(1), out);
+                if real.probing {
+                    let got = probe(&real.log);
+                    check_probe(m, &got, global.get(), pos.saturating_sub(1), out);
+                }
                 continue;
             }
             Step::Exit | Step::ExitPanic => {
@@ -255,20 +274,30 @@ fn interp(steps: &[Step], mut pos: usize, real: &mut Real, m: &mut Model, global
             }
         }
         m.apply(s);
-        let got = probe(&real.log);
-        check_probe(m, &got, global, pos, out);
+        if real.probing {
+            let got = probe(&real.log);
+            check_probe(m, &got, global.get(), pos, out);
+        }
         pos += 1;
     }
     (pos, false)
 }
 
 fn run_program(steps: &[Step], nrec: usize, global: Option<usize>, log: &Log, recs: &[&'static Dbl]) -> Outcome {
-    let mut real = Real { recs: recs[..nrec].to_vec(), guards: Vec::new(), log: log.clone() };
+    run_program_sync(steps, nrec, global, log, recs, None, true)
+}
+
+fn run_program_sync(steps: &[Step], nrec: usize, global: Option<usize>, log: &Log, recs: &[&'static Dbl], sync: Option<(std::sync::mpsc::Sender<()>, std::sync::mpsc::Receiver<()>, usize)>, probing: bool) -> Outcome {
+    let mut real = Real { recs: recs[..nrec].to_vec(), guards: Vec::new(), sync, probing, log: log.clone() };
     let mut m = Model::default();
     let mut out = Outcome { bad: None };
+    let global = std::cell::Cell::new(global);
+    let global = &global;
     // the program must start from a clean thread: no local recorder
-    let got = probe(log);
-    check_probe(&m, &got, global, 0, &mut out);
+    if real.probing {
+        let got = probe(log);
+        check_probe(&m, &got, global.get(), 0, &mut out);
+    }
     let (_, _) = interp(steps, 0, &mut real, &mut m, global, &mut out);
     // close scopes left open (programs are enumerated to completion, so this only drops remaining guards LIFO)
     for i in (0..real.guards.len()).rev() {
@@ -371,6 +400,89 @@ fn programs_part(ctx: &Ctx, res: &mut PartResult, with_global: bool, nrec: usize
     res.distinct_outcomes = states.len();
     res.bound = json!({"recorders": nrec, "max_steps": max_steps, "max_closure_nesting": max_nest, "max_guards": 3, "global_recorder_installed": with_global});
     res.sample(json!({"program": sample, "after_every_step": "counter!/gauge!/histogram!/describe_counter! probes"}));
+}
+
+/// The process-global recorder installed in the middle of histories. It can be installed once per process, so all
+/// histories of this part share one installation: every LIFO scope program of at most `max_steps` steps with an install
+/// point inserted at every position (also inside closures and while guards are held), each on its own thread, each in
+/// two variants (emitting after every step from the start / not emitting at all before the installation). The threads
+/// run their part before the install point one after the other and park; the main thread installs the recorder; the
+/// threads then continue one after the other. Before the installation emissions outside local scopes reach nobody,
+/// afterwards the global recorder — on every thread, whatever it did before.
+fn global_install_part(res: &mut PartResult, max_steps: usize) {
+    res.engine = "E3 scope programs x position of the (one) global installation x emitted-before-or-not, one thread each, sharing one real installation".into();
+    vseq::quiet_panics();
+    let log: Log = Default::default();
+    let nrec = 2;
+    let recs = leak_recs(nrec + 1, &log);
+    let mut programs: Vec<(Vec<Step>, bool)> = Vec::new();
+    let mut base: Vec<Vec<Step>> = vec![vec![]];
+    enumerate(nrec, max_steps, 2, &mut |prog| {
+        // LIFO programs without forgotten guards only: the others are judged (and known) in the programs parts
+        let mut m = Model::default();
+        for s in prog {
+            m.apply(*s);
+        }
+        if !m.non_lifo && !m.forgot {
+            base.push(prog.to_vec());
+        }
+    });
+    for b in &base {
+        for pos in 0..=b.len() {
+            let mut p = b.clone();
+            p.insert(pos, Step::InstallGlobal);
+            programs.push((p.clone(), true));
+            programs.push((p, false));
+        }
+    }
+    let mut states = vseq::States::new();
+    struct T {
+        go: std::sync::mpsc::Sender<()>,
+        h: std::thread::JoinHandle<Outcome>,
+        prog: String,
+    }
+    let mut threads: Vec<T> = Vec::new();
+    for (prog, probing) in &programs {
+        let (ready_tx, ready_rx) = std::sync::mpsc::channel::<()>();
+        let (go_tx, go_rx) = std::sync::mpsc::channel::<()>();
+        let (prog2, log2, recs2, probing) = (prog.clone(), log.clone(), recs.clone(), *probing);
+        let h = std::thread::spawn(move || run_program_sync(&prog2, nrec, None, &log2, &recs2, Some((ready_tx, go_rx, nrec)), probing));
+        // wait until it is parked at its install point (the parts before the install point run one at a time)
+        let _ = ready_rx.recv();
+        threads.push(T { go: go_tx, h, prog: format!("{:?} (emitting before the installation: {})", prog, probing) });
+        res.transitions += prog.len() as u64;
+    }
+    let installed = metrics::set_global_recorder(Dbl { id: nrec, log: log.clone() }).is_ok();
+    if !installed {
+        res.error = Some("the global recorder could not be installed in a fresh part process".into());
+        return;
+    }
+    for t in threads {
+        let _ = t.go.send(());
+        res.executions += 1;
+        match t.h.join() {
+            Ok(out) => match out.bad {
+                Some((sig, msg, step)) => {
+                    states.add(&(sig.clone(), step));
+                    res.violation(&sig, format!("program {} at step {}: {}", t.prog, step, msg), json!({"program": t.prog}));
+                }
+                None => {
+                    states.add(&t.prog.len());
+                }
+            },
+            Err(_) => res.violation("scope-program-panicked", format!("program {} panicked", t.prog), json!({"program": t.prog})),
+        }
+    }
+    // a thread that starts after the installation
+    let (log2, recs2) = (log.clone(), recs.clone());
+    let out = std::thread::spawn(move || run_program(&[Step::Enter(0), Step::Exit], nrec, Some(nrec), &log2, &recs2)).join().unwrap();
+    if let Some((sig, msg, step)) = out.bad {
+        res.violation(&sig, format!("thread started after the installation, step {}: {}", step, msg), json!({}));
+    }
+    res.states = states.len();
+    res.distinct_outcomes = states.len();
+    res.bound = json!({"recorders": nrec, "max_steps": max_steps, "programs": programs.len(), "install_positions": "every position", "variants": ["emits after every step from the start", "does not emit before the installation"]});
+    res.sample(json!({"program": "[Enter(0), InstallGlobal, Exit]", "expected": "inside the closure r0; after it the global recorder"}));
 }
 
 /// two threads in lock-step: a recorder installed on one thread is never visible to the other
@@ -561,6 +673,7 @@ fn parts(ctx: &Ctx) -> Vec<PartSpec> {
         PartSpec::new("programs-with-global", json!({"p": "prog", "global": true, "recs": 2, "steps": steps, "nest": nest})).budget(b),
         PartSpec::new("programs-3recorders-no-global", json!({"p": "prog", "global": false, "recs": 3, "steps": if ctx.quick() { 5 } else { 7 }, "nest": 2})).budget(b),
         PartSpec::new("two-threads", json!({"p": "threads"})),
+        PartSpec::new("global-installed-mid-history", json!({"p": "install", "steps": if ctx.quick() { 3 } else { 4 }})),
         PartSpec::new("macro-forms", json!({"p": "macros"})),
     ]
 }
@@ -570,6 +683,7 @@ fn run(ctx: &Ctx, spec: &PartSpec) -> PartResult {
     match spec.arg["p"].as_str().unwrap_or("") {
         "prog" => programs_part(ctx, &mut res, spec.arg["global"].as_bool().unwrap_or(false), spec.arg["recs"].as_u64().unwrap_or(2) as usize, spec.arg["steps"].as_u64().unwrap_or(6) as usize, spec.arg["nest"].as_u64().unwrap_or(2) as usize),
         "threads" => threads_part(&mut res),
+        "install" => global_install_part(&mut res, spec.arg["steps"].as_u64().unwrap_or(3) as usize),
         _ => macro_forms(&mut res),
     }
     res
